@@ -151,6 +151,18 @@ class FDInterp:
         if f in ("np.transpose", "numpy.transpose"):
             perm = kws.get("axes", args[1] if len(args) > 1 else None)
             return ("T", args[0], perm)
+        if f in ("np.swapaxes", "numpy.swapaxes") and len(args) == 3 \
+                and all(isinstance(a, Aff) and a.is_const() for a in args[1:]):
+            i, j = int(args[1].c) % 3, int(args[2].c) % 3
+            perm = [0, 1, 2]
+            perm[i], perm[j] = perm[j], perm[i]
+            return ("T", args[0], ("tuple", tuple(Aff(k) for k in perm)))
+        if f in ("np.moveaxis", "numpy.moveaxis") and len(args) == 3 \
+                and all(isinstance(a, Aff) and a.is_const() for a in args[1:]):
+            src, dst = int(args[1].c) % 3, int(args[2].c) % 3
+            order = [k for k in range(3) if k != src]
+            order.insert(dst, src)
+            return ("T", args[0], ("tuple", tuple(Aff(k) for k in order)))
         if f == "fd_map":
             return ("fd_map", tuple(args))
         if isinstance(node.func, ast.Attribute) and unparse(node.func.value) == "self":
